@@ -80,10 +80,24 @@ fn any_content2() -> usize {
 // trace (L-W1): an increment precedes the first slot CAS; after k successful slot CASes exactly
 //   k+1 increments have happened; exactly one decrement, after the last CAS; per node
 //   reserve_writer -> help -> slot CASes -> release.
-// @harness name=l1_pay_all props=C02,C01,C09,C12 tier=quick flavour=nostd timeout=1800 fn=Debt::pay_all+Node::traverse+LocalNode::help+Node::reserve_writer
+// Two harnesses: the symbolic slot occupancy is on the foreign node (own node empty) or on the
+// writer's own node (foreign node empty); the control state of the foreign node is symbolic in both.
+// @harness name=l1_pay_all_foreign props=C02,C01,C09,C12 tier=quick flavour=nostd timeout=1800 fn=Debt::pay_all+Node::traverse+LocalNode::help+Node::reserve_writer
 #[cfg_attr(kani, kani::proof)]
-#[cfg_attr(kani, kani::unwind(34))]
-pub(crate) fn l1_pay_all() {
+#[cfg_attr(kani, kani::unwind(66))]
+pub(crate) fn l1_pay_all_foreign() {
+    pay_all_contract(true);
+    vcover!("l1_pay_all_foreign_end");
+}
+// @harness name=l1_pay_all_own props=C02,C01,C09,C12 tier=quick flavour=nostd timeout=1800 fn=Debt::pay_all+Node::traverse+LocalNode::help+Node::reserve_writer
+#[cfg_attr(kani, kani::proof)]
+#[cfg_attr(kani, kani::unwind(66))]
+pub(crate) fn l1_pay_all_own() {
+    pay_all_contract(false);
+    vcover!("l1_pay_all_own_end");
+}
+
+fn pay_all_contract(foreign_symbolic: bool) {
     let foreign = list_h::node_get(); // some other thread's node (stays USED)
     let ptr_obj = 0usize;
     let ptr = model::addr(ptr_obj);
@@ -94,7 +108,9 @@ pub(crate) fn l1_pay_all() {
     // foreign node state
     let mut i = 0;
     while i < 9 {
-        fast_h::poke(list_h::any_slot(foreign, i), any_content2());
+        if foreign_symbolic {
+            fast_h::poke(list_h::any_slot(foreign, i), any_content2());
+        }
         i += 1;
     }
     let fh = list_h::node_helping(foreign);
@@ -117,7 +133,9 @@ pub(crate) fn l1_pay_all() {
     vassert!(!core::ptr::eq(mine, foreign), "with_gives_the_thread_its_own_node");
     i = 0;
     while i < 8 {
-        fast_h::poke(list_h::any_slot(mine, i), any_content2());
+        if !foreign_symbolic {
+            fast_h::poke(list_h::any_slot(mine, i), any_content2());
+        }
         i += 1;
     }
     let pre_f = list_h::view(foreign);
@@ -160,7 +178,14 @@ pub(crate) fn l1_pay_all() {
         vassert!(post_f.helping.control == pre_f.helping.control, "pay_all_frame_foreign_control");
         vassert!(model::cnt(2) == 4, "pay_all_no_replacement_count");
     }
-    vassert!(helping_h::same_view(&post_m.helping, &pre_m.helping), "pay_all_frame_own_helping_state");
+    if helped {
+        // L-H: the writer's envelope went to the reader, the reader's came back in exchange
+        vassert!(post_m.helping.control == pre_m.helping.control && post_m.helping.slot == pre_m.helping.slot && post_m.helping.active_addr == pre_m.helping.active_addr,
+            "pay_all_frame_own_helping_state");
+        vassert!(post_m.helping.space_offer == pre_f.helping.space_offer, "pay_all_helper_takes_readers_envelope_in_exchange");
+    } else {
+        vassert!(helping_h::same_view(&post_m.helping, &pre_m.helping), "pay_all_frame_own_helping_state");
+    }
     // L-W1 trace: walk the log
     let n = model::log_len();
     let mut incs = 0usize;
@@ -186,5 +211,4 @@ pub(crate) fn l1_pay_all() {
         k += 1;
     }
     vassert!(paid == held && incs == held + 1 && decs == 1, "pay_all_ledger_prepaid_plus_k_minus_one");
-    vcover!("l1_pay_all_end");
 }
